@@ -221,6 +221,7 @@ VENEERS_HARNESS = _h(("internal/zzverif/hveneers/zz_verif_c17.go", "harness/hven
                      ("internal/zzverif/hveneers/zz_verif_c17_more.go", "harness/hveneers/zz_verif_c17_more.go"),
                      ("internal/zzverif/hveneers/zz_verif_c09_nilchecks.go", "harness/hveneers/zz_verif_c09_nilchecks.go"),
                      ("internal/zzverif/hveneers/zz_verif_c14.go", "harness/hveneers/zz_verif_c14.go"),
+                     ("internal/zzverif/hveneers/zz_verif_c13_ctx.go", "harness/hveneers/zz_verif_c13_ctx.go"),
                      ("internal/zzverif/hveneers/zz_verif_c14_more.go", "harness/hveneers/zz_verif_c14_more.go"),
                      ("internal/zzverif/hveneers/zz_verif_c17_seq.go", "harness/hveneers/zz_verif_c17_seq.go"))
 
@@ -434,7 +435,8 @@ def _c13_prepare(tmp, tier):
     return ctx
 
 def _c13_runs(ctx):
-    runs = []
+    runs = [Run("context_helpers", ["./internal/zzverif/hveneers"], VENEERS_HARNESS, ["VerifC13ContextHelpers"], "internal/zzverif/hveneers", test_pkg_name="hveneers",
+                needs_leaf=True, judge="prefix:C13")]
     for pkg, entries in sorted(ctx["c13"].items()):
         runs.append(_gen_run(ctx, "equals_" + pkg, pkg, [(pkg + "/zz_verif_c13_gen.go", os.path.join(ctx["c13h"], "zz_verif_c13_%s.go" % pkg))], entries, panics="violation"))
     return runs
